@@ -584,6 +584,34 @@ var c05Mutations = []c05Mutation{
 			c.setPost(docString(ed))
 		}
 	}},
+	{"post_with_signature_parameter_only", func(c *c05Case) {
+		// a POST-binding message without (or with a broken) enveloped signature, accompanied by a Signature form
+		// parameter but no usable SigAlg: no procedure verifies that combination
+		n, what := c.editedNode()
+		c.Labels = append(c.Labels, what)
+		x := c.unsignedXML(n)
+		if c.rng.Intn(3) == 0 {
+			x = c.unsignedXML(c.Node)
+		}
+		m := c.signedRedirect(c.Node, c.keyA(), c.Relay, c.HasRelay, c.Alg)
+		sig := []string{"AAAA", m.Signature, spsim.B64([]byte("x")), "="}[c.rng.Intn(4)]
+		kv := []string{"SAMLRequest", spsim.B64([]byte(x)), "Signature", sig}
+		switch c.rng.Intn(3) {
+		case 0:
+			kv = append(kv, "SigAlg", "")
+		case 1: // no SigAlg at all
+		default:
+			kv = append(kv, "sigalg", c.Alg) // a parameter of another name
+		}
+		if c.HasRelay {
+			kv = append(kv, "RelayState", c.Relay)
+		}
+		c.Binding = "post"
+		c.Method, c.Query, c.Body = "POST", "", spsim.FormBody(kv...)
+		if c.rng.Intn(3) == 0 { // the Signature parameter travels in the query instead
+			c.Query, c.Body = "Signature="+url.QueryEscape(sig), spsim.FormBody(kv[:2]...)
+		}
+	}},
 	{"raw_query_smuggling", func(c *c05Case) {
 		// the genuine signed triple is sent in an encoding style of its own (a verifier has to use the octets as
 		// received); beside it the query carries forged values under names a form parser also maps to the parameters
